@@ -29,6 +29,9 @@ def literal_of(W, ctor):
     f = W.fn(ctor)
     cx = W.ctx(f)
     ty = ctor.rsplit('::', 1)[0]
+    m = re.match(r'^<(\S+) as \S+>$', ty)
+    if m:
+        ty = m.group(1)
     lits = [s for s in f.stmts() if s.k == 'assign' and s.rv.k == 'agg' and s.rv.j.get('ak') == 'adt' and s.rv.j.get('fields')
             and strip_generics(s.rv.j['adt']).endswith(ty)]
     if len(lits) != 1:
@@ -77,7 +80,7 @@ def rule_for(pid):
                      '%s initialises `%s` with `%s`, expected /%s/ -- %s' % (short(e['ctor']), e['field'], v[:80], e['expect'], e['why']), where(f, s.line))
         ob.require_count(len(ents), 1, 'initial-state entries for %s' % pid)
         # discovery: every sentinel-compared field is listed (for any property)
-        listed = {(e['ctor'].rsplit('::', 1)[0], e['field']) for e in table()}
+        listed = {(re.sub(r'^<(\S+) as \S+>$', r'\1', e['ctor'].rsplit('::', 1)[0]), e['field']) for e in table()}
         for (ty, fld), f in sorted(sentinel_fields(W).items()):
             ty2, fld2 = OWNER.get(fld, (ty, fld))
             top = fld2.split('.')[0]
